@@ -70,6 +70,20 @@ CHECKS = {
         note="Screens up to 30 rows, up to 40 nodes per screen; Plate.merge excluded (documented mutation).",
         technique="reference model (sorted index tuples) over random operation trees + aliasing re-checks",
     ),
+    "C11": dict(
+        cat="exploration",
+        text="Multiset conservation (keyed by unique observation tags) checked after every shipped generator, smoother and hold-out run with random (also useless) parameters and fresh/advanced/shared generator states; observed part must pass through unchanged; hold-out must partition with the right per-plate counts; the input screen is hashed before and after every call.",
+        ref="4/C11",
+        note="Operations that raise are counted as did-not-return, not judged; three readings of ceil(fraction x size) accepted.",
+        technique="post-condition monitor with identity-tagged rows (multiset conservation) + input-mutation hash",
+    ),
+    "C13": dict(
+        cat="exploration",
+        text="Per-operation post-conditions on the returned screen (single-sample plates and size limit, sparse cover, combination filter reference, common/optimal size, per-sample minimum, greedy min-merge reference on per-sample size lists, ceil-halving for top-bottom, unions of whole same-sample plates) on screens that emphasise small samples, exact-limit samples, ties and single plates.",
+        ref="4/C13",
+        note="Operations that raise are did-not-return; NPlatePerCellLine judged on samples that still have unobserved experiments.",
+        technique="post-condition monitors + small reference algorithms (greedy merge, optimal size)",
+    ),
 }
 
 NOT_BUILT_REASON = "check not built yet in this revision (planned, see DESIGN.md section 4)"
